@@ -1,5 +1,5 @@
 (** The repair "period range covers listed segments" (proposed_fixes/C06-period-range-covers-
-    listed-segments.diff): [splitPeriod true ...] widens [startPeriodNr, endPeriodNr] so that the
+    listed-segments.diff): [splitPeriod false true ...] widens [startPeriodNr, endPeriodNr] so that the
     first and the last listed segment of every SegmentTimeline have their period.  With it the
     partition holds for the WHOLE single-period timeline: no hypothesis about early or late
     segments is left. *)
@@ -153,7 +153,7 @@ Definition tlBound (P HI : Z) (a : asIn) : Prop :=
 
 Theorem splitPeriod_partition_full pph seg mode cont ast snr st now ases ps j a s0 rest t0 HI :
   1 <= pph <= 3600 -> 0 < seg -> ast <= st <= now -> mode <> MNumber ->
-  splitPeriod true pph seg mode cont ast snr st now ases = Ok ps ->
+  splitPeriod false true pph seg mode cont ast snr st now ases = Ok ps ->
   nth_error ases j = Some a -> a_image a = false -> a_tl a = Some (s0 :: rest) -> p_t s0 = Some t0 ->
   Forall (fun s => 0 <= p_r s < two32) (s0 :: rest) ->
   let es := s0 :: rest in
@@ -238,7 +238,7 @@ Qed.
 (** ato_3, 2 s segments, periods_60, now = 59 s: with the repair period 1 exists and holds the
     segment that starts at 60 s. *)
 Lemma late_segment_after_fix :
-  splitPeriod true 60 2000 MTimelineTime false 0 0 0 59000
+  splitPeriod false true 60 2000 MTimelineTime false 0 0 0 59000
     [ {| a_image := false; a_ts := Some 90000; a_dur := None; a_startNr := None; a_tl := Some atoTL |} ] =
   Ok [ {| pd_nr := 0; pd_start := 0;
           pd_as := [ {| o_pto := 0; o_startNr := None; o_tl := Some [ {| p_t := Some 0; p_d := 180000; p_r := 29 |} ]; o_cont := false |} ] |};
@@ -252,11 +252,11 @@ Proof. vm_compute. reflexivity. Qed.
 Definition earlyTL : list pS := [ {| p_t := Some 10260000; p_d := 540000; p_r := 0 |} ].
 Definition earlyAS : asIn := {| a_image := false; a_ts := Some 90000; a_dur := None; a_startNr := None; a_tl := Some earlyTL |}.
 Lemma early_segment_before_fix :
-  splitPeriod false 30 6000 MTimelineTime false 0 0 120000 121000 [earlyAS] =
+  splitPeriod false false 30 6000 MTimelineTime false 0 0 120000 121000 [earlyAS] =
   Ok [ {| pd_nr := 1; pd_start := 120; pd_as := [ {| o_pto := 10800000; o_startNr := None; o_tl := Some []; o_cont := false |} ] |} ].
 Proof. vm_compute. reflexivity. Qed.
 Lemma early_segment_after_fix :
-  splitPeriod true 30 6000 MTimelineTime false 0 0 120000 121000 [earlyAS] =
+  splitPeriod false true 30 6000 MTimelineTime false 0 0 120000 121000 [earlyAS] =
   Ok [ {| pd_nr := 0; pd_start := 0;
           pd_as := [ {| o_pto := 0; o_startNr := None; o_tl := Some [ {| p_t := Some 10260000; p_d := 540000; p_r := 0 |} ]; o_cont := false |} ] |};
        {| pd_nr := 1; pd_start := 120; pd_as := [ {| o_pto := 10800000; o_startNr := None; o_tl := Some []; o_cont := false |} ] |} ].
